@@ -102,6 +102,24 @@ def _inline_block(body, st, ld):
                     continue
                 # N1b: a PURE temporary (names, attribute chains, constant subscripts: nothing that can
                 # have an effect, so evaluation order does not matter) used once in the next simple statement
+                # E33: a callee chosen by a conditional expression and called once in the next statement: the call under each arm
+                if "E33" not in _SKIP and isinstance(s.value, ast.IfExp) and _pure(s.value.body) and _pure(s.value.orelse) \
+                        and isinstance(nxt, (ast.Assign, ast.Return, ast.Expr)) and not isinstance(nxt, ast.If):
+                    import copy as _copy
+                    callee_uses = [c for c in ast.walk(nxt) if isinstance(c, ast.Call) and isinstance(c.func, ast.Name) and c.func.id == t]
+                    all_uses = [n for n in ast.walk(nxt) if isinstance(n, ast.Name) and n.id == t]
+                    if len(callee_uses) == 1 and len(all_uses) == 1 and not _call_before([nxt], callee_uses[0].func):
+                        arms = []
+                        for arm in (s.value.body, s.value.orelse):
+                            cp = _copy.deepcopy(nxt)
+                            for c in ast.walk(cp):
+                                if isinstance(c, ast.Call) and isinstance(c.func, ast.Name) and c.func.id == t:
+                                    c.func = _copy.deepcopy(arm)
+                            arms.append(cp)
+                        out.append(ast.fix_missing_locations(ast.copy_location(ast.If(test=s.value.test, body=[arms[0]], orelse=[arms[1]]), s)))
+                        changed = True
+                        i += 2
+                        continue
                 # N1e: any value, when nothing but constants / plain names is evaluated before the place it is used at in the next
                 # statement: the value is then computed at the very same point of the execution
                 if "N1e" not in _SKIP and isinstance(nxt, (ast.Return, ast.Expr)) or (isinstance(nxt, ast.Assign) and len(nxt.targets) == 1):
@@ -408,6 +426,17 @@ class _ExprNF(ast.NodeTransformer):
                 return ast.copy_location(ast.List(elts=[], ctx=ast.Load()), n)
             if n.func.id == "tuple":
                 return ast.copy_location(ast.Tuple(elts=[], ctx=ast.Load()), n)
+        return n
+
+    def visit_AugAssign(self, n):
+        self.generic_visit(n)
+        # E34: `xs += [e]` is `xs.append(e)` (in place, one element at the end)
+        if "E34" not in _SKIP and isinstance(n.op, ast.Add) and isinstance(n.target, (ast.Name, ast.Attribute)) and isinstance(n.value, ast.List) \
+                and len(n.value.elts) == 1 and not isinstance(n.value.elts[0], ast.Starred):
+            recv = ast.copy_location(ast.Name(id=n.target.id, ctx=ast.Load()), n.target) if isinstance(n.target, ast.Name) else \
+                ast.copy_location(ast.Attribute(value=n.target.value, attr=n.target.attr, ctx=ast.Load()), n.target)
+            call = ast.Call(func=ast.Attribute(value=recv, attr="append", ctx=ast.Load()), args=[n.value.elts[0]], keywords=[])
+            return ast.fix_missing_locations(ast.copy_location(ast.Expr(value=ast.copy_location(call, n)), n))
         return n
 
     def visit_Assign(self, n):
